@@ -1,54 +1,32 @@
 (* C24 - pooled connections carry no state from a previous checkout.
    Statements only.  Model: engine/ResetSeq.v (one pooled DBAPI connection used by a sequence of users
-   through the engine-level Connection API; reset-on-return, characteristic finalisers, GC path). *)
+   through the engine-level Connection API; reset-on-return, characteristic finalisers, GC path),
+   transcribing the code as of commit 4102dab (Connection.close() skips the pool's reset only when
+   it rolled an ACTIVE transaction back itself). *)
 From Coq Require Import List ZArith Bool.
 Import ListNotations.
 From SAV.engine Require Import ResetSeq ResetSeqProofs.
 Open Scope Z_scope.
 
-(* clean_on_checkout fails on the unchanged code: a COMMIT that raises an ordinary DBAPI error leaves
-   the RootTransaction attached but inactive; Connection.close() then closes it without a rollback
-   and passes transaction_reset=True, so _reset emits nothing either: the next checkout gets the
-   connection with the transaction still open and the uncommitted rows in it *)
-Theorem c24_clean_on_checkout_refuted : exists kind us fl,
-  let s := run RRollback kind us (init fl) in
-  pristine (next_checkout s) = false /\ in_txn (next_checkout s) = true /\ dirty (next_checkout s) = true /\
-  bad_close s = true.
-Proof. exists PQueue, [[OWrite; OCommit; OClose]], [1]. vm_compute. auto. Qed.
-Print Assumptions c24_clean_on_checkout_refuted.
+(* clean_on_checkout: for reset_on_return = rollback or commit, every pool class, every history of
+   users (commit, rollback, nothing, failing statements, failing commit / rollback, dropped references,
+   isolation-level / autocommit changes, invalidation, never returning the connection) and every fault
+   script, the connection handed to the next checkout has no open transaction, no uncommitted writes
+   and the default isolation level / autocommit setting *)
+Theorem c24_clean_on_checkout : forall reset kind, reset <> RNone -> forall us fl,
+  pristine (next_checkout (run reset kind us (init fl))) = true.
+Proof. exact clean_on_checkout. Qed.
+Print Assumptions c24_clean_on_checkout.
 
-(* the same on SQLite, where the failing COMMIT is a deferred foreign-key violation *)
-Theorem c24_clean_on_checkout_refuted_sqlite : exists kind us,
-  pristine (next_checkout (run RRollback kind us (init []))) = false.
-Proof. exists PQueue, [[OFkWrite; OCommit; OClose]]. vm_compute. auto. Qed.
-Print Assumptions c24_clean_on_checkout_refuted_sqlite.
-
-(* outside exactly that region: for reset_on_return = rollback or commit, every pool class, every
-   history of users (commit, rollback, nothing, failing statements, failing commit / rollback,
-   dropped references, isolation-level / autocommit changes, invalidation) and every fault script the
-   connection handed to the next checkout has no open transaction, no uncommitted writes and the
-   default isolation level / autocommit setting *)
-Theorem c24_clean_on_checkout_guarded : forall reset kind, reset <> RNone -> forall us fl,
-  let s := run reset kind us (init fl) in
-  bad_close s = false -> pristine (next_checkout s) = true.
-Proof. exact clean_on_checkout_guarded. Qed.
-Print Assumptions c24_clean_on_checkout_guarded.
-
-(* reset_exactly_once_or_skipped_soundly: transaction_was_reset=True reaches _ConnectionFairy._reset
-   while the DBAPI transaction is still open only in the defective region (and there it does) *)
-Theorem c24_reset_skipped_soundly_guarded : forall reset kind us fl,
-  let s := run reset kind us (init fl) in
-  twr_unsound s = true -> bad_close s = true.
+(* reset_exactly_once_or_skipped_soundly: transaction_was_reset=True never reaches
+   _ConnectionFairy._reset while the DBAPI transaction is still open *)
+Theorem c24_reset_skipped_soundly : forall reset kind us fl,
+  twr_unsound (run reset kind us (init fl)) = false.
 Proof. exact reset_skipped_soundly. Qed.
-Print Assumptions c24_reset_skipped_soundly_guarded.
+Print Assumptions c24_reset_skipped_soundly.
 
-Theorem c24_reset_skipped_soundly_refuted : exists kind us fl,
-  twr_unsound (run RRollback kind us (init fl)) = true.
-Proof. exists PQueue, [[OWrite; OCommit; OClose]], [1]. vm_compute. auto. Qed.
-Print Assumptions c24_reset_skipped_soundly_refuted.
-
-(* characteristics_restored: unconditionally (every reset style incl. None, also in the defective
-   region) the next checkout sees the default isolation level and autocommit setting ... *)
+(* characteristics_restored: unconditionally (every reset style incl. None) the next checkout sees the
+   default isolation level and autocommit setting ... *)
 Theorem c24_characteristics_restored : forall reset kind us fl,
   iso (next_checkout (run reset kind us (init fl))) = 0 /\ autoc (next_checkout (run reset kind us (init fl))) = false.
 Proof. exact characteristics_restored. Qed.
@@ -62,10 +40,17 @@ Theorem c24_finaliser_pending : forall reset kind ops d s codes c s',
 Proof. exact finaliser_pending. Qed.
 Print Assumptions c24_finaliser_pending.
 
+(* the former refutation witnesses (failed COMMIT followed by close(), fixed by commit 4102dab): the
+   pool's reset now rolls the transaction back; fake DBAPI and SQLite (deferred foreign key) *)
+Example c24_ex_failed_commit_then_close :
+  pristine (next_checkout (run RRollback PQueue [[OWrite; OCommit; OClose]] (init [1]))) = true /\
+  pristine (next_checkout (run RRollback PQueue [[OFkWrite; OCommit; OClose]] (init []))) = true /\
+  log (run RRollback PQueue [[OWrite; OCommit; OClose]] (init [1])) = [1; 2].
+Proof. vm_compute. auto. Qed.
+
 (* non-vacuity: a history with a failing rollback at close, dropped references with pending
-   characteristics and a user that never returns its connection stays outside the defective region
-   and ends pristine on the same DBAPI connection *)
+   characteristics and a user that never returns its connection ends pristine on the same connection *)
 Example c24_ex_history :
   let s := run RRollback PQueue [[OIso; OWrite; OClose; ODrop]; [OAutoc; OWrite; OBegin; ODrop]; [OWrite; ORollback; OWrite]] (init [1]) in
-  bad_close s = false /\ pristine (next_checkout s) = true /\ nconn s = 1.
+  pristine (next_checkout s) = true /\ nconn s = 1.
 Proof. vm_compute. auto. Qed.
